@@ -184,6 +184,8 @@ class Mask(Generic[R], Pytree):
             - None if `f` is concretely False.
             - A new Mask instance with the given value and flag if `f` is not concrete.
         """
+        if FlagOp.concrete_false(f):
+            return None
         return Mask.build(v, f).flatten()
 
     #############
